@@ -126,7 +126,10 @@ def sspec(mult, cvs, geo, data):
     return " ".join(parts)
 
 
-NONDYADIC = [1.123456789, -3.987654321, 0.3, 2.718281828459045, -0.1234567891234, 7.000000001, 1e-3 * 3.3333333]
+NONDYADIC = [1.123456789, -3.987654321, 0.3, 2.718281828459045, -0.1234567891234, 7.000000001, 1e-3 * 3.3333333,
+             # boundaries whose 15-digit rounding error exceeds the readers' 1e-10: a file written on such a grid is re-gridded when
+             # read back by the same grid (premise of C15_roundtrip_multicol_formatted not met); the data must still come back
+             123456.78901234567, -98765.432109876543]
 NDWIDTH = [0.3, 0.1234, 1.0 / 3.0, 0.7, 2.5e-2, 1.1]
 
 
@@ -254,7 +257,7 @@ def gen_io_case(r, k):
             if dy_geom:
                 w = r.choice([1.0, 0.5, 0.25, 2.0, 0.75]); lo = V.dyadic(r, -4, 4)
             else:
-                w = r.choice(NDWIDTH); lo = r.choice(NONDYADIC)
+                w = r.choice(NDWIDTH); lo = r.choice(NONDYADIC[:7])   # (periodicity of a variable is ill-conditioned at 1e5)
             up = lo + n * w
             periodic = r.random() < 0.4
             cv = {"lower": lo, "upper": up, "width": w, "period": (up - lo) if periodic else 0.0}
@@ -588,7 +591,12 @@ def run_io(run, r, unit, model, n):
         else:
             run.dist("io:damaged:" + mut.split(":")[0])
             # (a re-gridded file cut between two records cannot be told from a shorter file: only the tie applies there)
-            if gi is not None and mut.startswith("truncate") and f != "remap":
+            # nor can a file whose boundaries do not survive their own formatting within the reader's 1e-10: it is re-gridded
+            # by the grid that wrote it (|boundary| above ~2e4 at 15 digits; premise of C15_roundtrip_multicol_formatted)
+            regrid = f in ("multicol", "file") and any(abs(float("%.14e" % x) - x) > 1e-10 for x in c["g"]["lower"] + c["g"]["width"])
+            if regrid:
+                run.dist("io:regridded-by-rounding")
+            if gi is not None and mut.startswith("truncate") and f != "remap" and not regrid:
                 run.violation("io:truncated-accepted:" + f, "a %s file %s was accepted without any error (grid returned: %s)" % (f, mut, oi[:200]),
                               {"kind": "io", "read": a, "text": text})
             if gi is None:
@@ -949,7 +957,7 @@ def run_round4(run, r, unit, model, n):
         nd = r.choice([1, 2, 3])
         cvs = []
         for d in range(nd):
-            w = r.choice([1.0, 0.5, 0.25, 0.3, 0.7]); lo = r.choice([V.dyadic(r, -4, 4), r.choice(NONDYADIC)]); m = r.randint(1, 4)
+            w = r.choice([1.0, 0.5, 0.25, 0.3, 0.7]); lo = r.choice([V.dyadic(r, -4, 4), r.choice(NONDYADIC[:7])]); m = r.randint(1, 4)
             up = lo + m * w
             cvs.append({"lower": lo, "upper": up, "width": w, "period": (up - lo) if r.random() < 0.4 else 0.0, "n": m})
         xl.append(("SW " + sspec(1, cvs, cvs, []) + " XGRID", "XBIN %d %s" % (nd, " ".join("%s %s %s %s" % (V.hexf(c["lower"]), V.hexf(c["upper"]), V.hexf(c["width"]), V.hexf(c["period"])) for c in cvs))))
